@@ -23,6 +23,34 @@ CLAIMS = {
             "indices compared by support; follow-up behaviour is the next search level judged against the reference model"),
 }
 
+FE = "fault enumeration on the implementation (every failing write position of every update of every explored history), reference-model oracle"
+CLAIMS.update({
+    "C04": (E, "exploration", EN,
+            "every operator x operand form x ordered value pair of a stated domain, every unary/builtin, calls, item/attribute access with constant and computed keys, all in-place operators, and all expression trees to depth 2 (depth 3 over representative operators) are built on real refs and evaluated before and after changing the operands; value AND type (or exception type) must equal the same Python operator on plain values, zero division giving NaN",
+            "finite value domain chosen to hit every guard (zero divisors, bools, complex, numpy scalars/arrays); numpy-on-the-left excluded as the property says"),
+    "C05": (E, "exploration", EN,
+            "every BaseRef subclass discovered by introspection x every operand slot x nesting depth <= 2: reported dependencies must be a set equal to the structural walk; plus perturb-one-location experiments through set_value for soundness",
+            "operand slots are discovered from the classes themselves; a class the constructor table cannot build is reported as uncovered"),
+    "C06": (E, "exploration", EN,
+            "all item/attribute paths of depth <= 2 over an adversarial key pool (quotes, brackets, dots, unicode, look-alike text, ints, floats, tuples) and depth 3-4 over a sub-pool, ALL ordered pairs compared with ==, hash and dict membership against structural equality; expression trees built twice; 4x10^5-key family through a dict",
+            "keys within the pool are pairwise unequal Python values; labels are identifiers"),
+    "C07": (H, "model_checking", MC,
+            "every history of Table-API mutations (cell assignment into the index column by position and by name, whole-column and attribute-style assignment, other cells, new/deleted/popped columns, appended rows, switching the index column) interleaved with cache-building lookups, to the depth bound; after every operation every (name, count, offset) designator in string and tuple form is resolved through get/set/get_index/floordiv on an own replica and compared with a linear scan; unique labels and show() resolve back",
+            "names avoid the separator substrings; offsets only when landing inside the table; tables of 0..5 rows over a 3-name alphabet"),
+    "C12": (H, "model_checking", MC,
+            "on every manager state reached by assignment histories over every node class: pickle round trip, identical dump, index consistency and verify() on the copy, mirrored follow-up assignments on both, independence of the two",
+            "containers are picklable harness classes; bounded depth"),
+    "C13": (H, "model_checking", MC,
+            "on every reached acyclic expression-task state x every non-empty leaf subset (<= 3) x argument values: gen_fun(...)(*vals) against a twin driven by set_value; emitted lines are the model trigger set once each in precise data-flow order",
+            "division by zero inputs excluded as the property says; sibling-cycle ordering defect is a listed known finding"),
+    "C17": (H, "model_checking", MC,
+            "phased histories h1 . freeze . every API call (<= k) . unfreeze . h2: a rejected call raises ValueError and leaves the entire concrete state identical; value assignments propagate as in the reference model; after unfreeze the state equals the never-frozen twin",
+            "bounds on the phase lengths stated in the evidence"),
+    "C18": (H, "fault_enumeration", FE,
+            "for every explored history and every assignment, the fault-free write trace is recorded and then every write position k is made to fail (also FunctionTask actions), sequences of up to two faulty updates, then the fault-free repeat: exception reaches the caller, writes are the prefix W[:k], indices consistent, repeat re-establishes the pull-model contents",
+            "faults are injected by harness-side logging containers; 'definitions unchanged' accepts either the pre-update or the established definition (DESIGN section 6)"),
+})
+
 NOT_YET = "check under construction in this session; not yet claimed"
 
 
